@@ -334,6 +334,56 @@ func fStep(prof FProfile) func(t *rapid.T, w *world.World) world.Action {
 				id := rapid.SampledFrom(f.Order).Draw(t, "tochain")
 				return world.Action{Kind: world.KRelay, Consumer: id, Relay: &world.RelaySpec{Op: "timeout", Dir: rapid.SampledFrom([]string{"p2c", "p2c", "c2p"}).Draw(t, "todir"), K: rapid.IntRange(1, 3).Draw(t, "tok")}}
 			}
+		case "throttle":
+			// macro: two different validators of one consumer go down one after the other, each report is relayed
+			// and acknowledged, then the consumer runs past its retry delay and the exchange is relayed again - the
+			// second report meets a slash meter that the first jailing may have driven negative (bounce, retry)
+			var cands []string
+			for _, id := range f.Order {
+				if _, ok := w.P.PApp.ProviderKeeper.GetConsumerIdToChannelId(w.P.Ctx(), id); !ok || f.Paths[id].C.Halted {
+					continue
+				}
+				if _, ok := f.Paths[id].C.CApp.ConsumerKeeper.GetProviderChannel(f.Paths[id].C.Ctx()); ok && len(consumerKeyNames(w, id)) >= 2 {
+					cands = append(cands, id)
+				}
+			}
+			if len(cands) > 0 {
+				id := rapid.SampledFrom(cands).Draw(t, "thchain")
+				names := consumerKeyNames(w, id)
+				ai := rapid.IntRange(0, len(names)-1).Draw(t, "tha")
+				bi := (ai + 1 + rapid.IntRange(0, len(names)-2).Draw(t, "thb")) % len(names)
+				down := func(key string) {
+					for i, n := 0, rapid.IntRange(3, 6).Draw(t, "thdown"); i < n; i++ {
+						w.Agenda = append(w.Agenda, world.Action{Kind: world.KBlock, Chain: id, Dt: int64(rapid.IntRange(1, 3).Draw(t, "thdt")) * 1e9, Absent: []string{key}})
+					}
+				}
+				deliver := func() {
+					w.Agenda = append(w.Agenda,
+						world.Action{Kind: world.KRelay, Consumer: id, Relay: &world.RelaySpec{Op: "recv", Dir: "c2p", K: 2}},
+						world.Action{Kind: world.KBlock, Dt: 2e9},
+						world.Action{Kind: world.KBlock, Dt: 1e9},
+						world.Action{Kind: world.KRelay, Consumer: id, Relay: &world.RelaySpec{Op: "ack", Dir: "c2p", K: 2}},
+						world.Action{Kind: world.KBlock, Chain: id, Dt: 1e9},
+						world.Action{Kind: world.KBlock, Chain: id, Dt: 1e9})
+				}
+				down(names[ai])
+				deliver()
+				down(names[bi])
+				deliver()
+				retry := int64(f.CCfg.RetryDelay)
+				if retry <= 0 {
+					retry = int64(time.Hour)
+				}
+				for round := 0; round < rapid.IntRange(1, 2).Draw(t, "thretries"); round++ {
+					w.Agenda = append(w.Agenda,
+						world.Action{Kind: world.KBlock, Chain: id, Dt: retry + int64(rapid.IntRange(-1, 2).Draw(t, "throff"))*1e9},
+						world.Action{Kind: world.KBlock, Chain: id, Dt: 1e9})
+					deliver()
+				}
+				a := w.Agenda[0]
+				w.Agenda = w.Agenda[1:]
+				return a
+			}
 		case "errack":
 			// a byzantine consumer answers the next validator-set packet with an error acknowledgement; an honest
 			// relayer carries it to the provider
